@@ -48,6 +48,8 @@ class World(WsWorld):
         self.stream_pos = 0
         self.app_ops = []
         self.expect_comp = []
+        self.local_close_planned = False
+        self.local_closed = False
 
     # --- build -------------------------------------------------------------------------------------
     def build(self):
@@ -129,6 +131,8 @@ class World(WsWorld):
             self.plan_send()
         else:
             self.plan_inflate()
+        if self.mode in ("recv", "inflate"):
+            self.local_close_planned = ch.flag("local-close", 0.15)
 
     def mask(self):
         return b"\x21\x43\x65\x87" if self.cfg["server"] else None
@@ -246,10 +250,19 @@ class World(WsWorld):
             if self.emitted < len(self.script) and not self.p2e.buf:
                 # next piece only once the previous one was consumed: header-only delivery
                 acts.append((5.0, "emit", self.emit))
+            if self.local_close_planned and not self.local_closed and self.e.p._st == 3:
+                acts.append((1.0, "app-close", self.app_close))
         else:
             if self.app_ops and self.e.p._st == 3:
                 acts.append((5.0, "app-send", lambda: self.fw.call(self, self.do_send)))
         return acts
+
+    def app_close(self):
+        """the application starts its own closing handshake while the peer is still sending: the limits stay in force"""
+        self.local_closed = True
+        self.run.fault("local-close-in-flight")
+        self.run.log("app", "sendClose", 1000)
+        self.fw.call(self, self.e.p.sendClose, 1000)
 
     def emit(self):
         kind, data, meta = self.script[self.emitted]
@@ -312,6 +325,9 @@ class World(WsWorld):
         """Has the endpoint failed the connection (close frame 1009 written, or transport dropped)?"""
         e = self.e
         m = e.monitor
+        if self.local_closed:
+            # our close frame (1000) is already out: the only way left to fail the connection is to drop it
+            return "drop" if self.fw_dropped() else None
         if m.close_count:
             return "close:%s" % (m.close_sent[0],)
         if self.fw_dropped():
@@ -356,7 +372,7 @@ class World(WsWorld):
                 if verdict is None:
                     run.violate("C16.early-1009", "no-verdict-after-header", "declared %d, M=%s F=%s" % (
                         self.offender["declared"], self.cfg["M"], self.cfg["F"]))
-                elif self.cfg["failByDrop"]:
+                elif self.cfg["failByDrop"] or self.local_closed:
                     if verdict != "drop":
                         run.violate("C16.early-1009", "failByDrop-but-" + verdict, "")
                 elif verdict != "close:1009":
@@ -404,6 +420,9 @@ class World(WsWorld):
         self.check_step()
         e = self.e
         got = self.got()
+        if self.local_closed:
+            run.probe("local-close-in-flight")
+            return  # safety clauses were checked at every step; completeness is not demanded of a closing connection
         if self.mode == "recv":
             if self.offender is None:
                 if got != self.expect:
